@@ -221,7 +221,9 @@ class Worker:
         if ctx.is_nontrivial:
             self.hashes.add(case_hash(case))
         new_labels = ctx.case_labels - self.sample_labels
-        if len(self.samples) < 12 and (new_labels or len(self.samples) < 3):
+        # samples: the first two cases as generated, then only non-trivial ones that show a new label
+        if len(self.samples) < 12 and (len(self.samples) < 2 or (
+                (ctx.is_nontrivial or ctx.chunk) and (new_labels or len(self.samples) < 5))):
             self.sample_labels |= ctx.case_labels
             smp = {"case": case, "labels": sorted(ctx.case_labels),
                    "nontrivial": ctx.is_nontrivial}
